@@ -295,6 +295,7 @@ def explore_shape(prop, SH, OR, shape, validate=True, max_paths=None):
     res['branches'] = eng.stats['branches']
     res['forks'] = eng.stats['forks']
     res['summary_paths'] = eng.stats.get('summary_paths', 0)
+    res['extra'] = prop.extra_counts() if hasattr(prop, 'extra_counts') else {}
     if res['reached'] == 0 and not res['inconclusive']:
         res['inconclusive'].append("vacuous: no path reached the assertion")
     return res
